@@ -156,8 +156,10 @@ X01_ResultAsPrescribed ==
 X01_ErrorOfLast ==
     (Done /\ result.kind = "err") =>
         /\ result.errs # {}
-        /\ LET last == cands[Len(cands)] IN
-           result.errs \subseteq ({asked[j].o : j \in {k \in DOMAIN asked : asked[k].n = last}} \cup {"nx", "nodata"})
+        /\ LET last == cands[Len(cands)]
+               seen == {asked[j].o : j \in {k \in DOMAIN asked : asked[k].n = last}}
+               known == {LocalSrc(cfg, Strict, last, Len(cands), t).o : t \in SeqRange(Ty)}
+           IN result.errs \subseteq ((seen \cup known) \ {"none", "data"})
 
 \* every lookup ends
 X01_Terminates == <>(st = "done")
